@@ -120,41 +120,49 @@ def build (C : DS σ) (H : Nat) (sum : Bool) (ds : List σ) : State σ :=
 
 /-- inner `while let Some(val) = tinyset.pop_lowest()` of `fill_buffer` on the current bucket;
 returns `some` when the buffer became full (then the popped doc is the new current doc) -/
-def fillBucket : Nat → State σ → List Nat → Nat → Option (List Nat × State σ) × (List Nat × Nat × State σ)
+def fillBucket (fx : Fix) : Nat → State σ → List Nat → Nat → Option (List Nat × State σ) × (List Nat × Nat × State σ)
   | 0, s, acc, cnt => (none, (acc, cnt, s))
   | n + 1, s, acc, cnt =>
     match popBucket s.bucketIdx s.window with
     | some (δ, w') =>
       let s1 := { s with doc := s.ws + δ, window := w' }
-      if cnt ≥ BUFLEN then (some (acc, s1), (acc, cnt, s1))
-      else fillBucket n s1 (acc ++ [s1.doc]) (cnt + 1)
+      if cnt ≥ BUFLEN then
+        -- the popped document becomes the current one
+        let s2 := if fx.fillScore then
+            { s1 with score := if s.sum then s.scores.getD δ 0 else 1,
+                      scores := if s.sum then s.scores.setIfInBounds δ 0 else s.scores }
+          else s1
+        (some (acc, s2), (acc, cnt, s2))
+      else
+        let s2 := if fx.fillClear && s.sum then { s1 with scores := s.scores.setIfInBounds δ 0 } else s1
+        fillBucket fx n s2 (acc ++ [s2.doc]) (cnt + 1)
     | none => (none, (acc, cnt, s))
 
 /-- `while self.bucket_idx < HORIZON_NUM_TINYBITSETS` of `fill_buffer` -/
-def fillWindow (H : Nat) : Nat → State σ → List Nat → Nat → Option (List Nat × State σ) × (List Nat × Nat × State σ)
+def fillWindow (fx : Fix) (H : Nat) : Nat → State σ → List Nat → Nat → Option (List Nat × State σ) × (List Nat × Nat × State σ)
   | 0, s, acc, cnt => (none, (acc, cnt, s))
   | n + 1, s, acc, cnt =>
     if s.bucketIdx < NB H then
-      match fillBucket 65 s acc cnt with
+      match fillBucket fx 65 s acc cnt with
       | (some r, q) => (some r, q)
-      | (none, (acc', cnt', s')) => fillWindow H n { s' with bucketIdx := s'.bucketIdx + 1 } acc' cnt'
+      | (none, (acc', cnt', s')) => fillWindow fx H n { s' with bucketIdx := s'.bucketIdx + 1 } acc' cnt'
     else (none, (acc, cnt, s))
 
 /-- outer `loop` of `fill_buffer`: a full buffer of 64 documents needs at most 64 refills -/
-def fillLoop (C : DS σ) (H : Nat) : Nat → State σ → List Nat → Nat → List Nat × State σ
+def fillLoop (fx : Fix) (C : DS σ) (H : Nat) : Nat → State σ → List Nat → Nat → List Nat × State σ
   | 0, s, acc, _ => (acc, s)
   | n + 1, s, acc, cnt =>
-    match fillWindow H (NB H + 1) s acc cnt with
+    match fillWindow fx H (NB H + 1) s acc cnt with
     | (some r, _) => r
     | (none, (acc', cnt', s')) =>
       match refill C H s' with
       | none => (acc', { s' with doc := TERMINATED })
-      | some s'' => fillLoop C H n s'' acc' cnt'
+      | some s'' => fillLoop fx C H n s'' acc' cnt'
 
 /-- mirrors: src/query/union/buffered_union.rs::fill_buffer — note: neither `self.score` nor the
 drained slots' combiners are touched (DESIGN §8 S4) -/
-def fillBuffer (C : DS σ) (H : Nat) (s : State σ) : List Nat × State σ :=
-  if s.doc = TERMINATED then ([], s) else fillLoop C H (BUFLEN + 2) s [s.doc] 1
+def fillBuffer (fx : Fix) (C : DS σ) (H : Nat) (s : State σ) : List Nat × State σ :=
+  if s.doc = TERMINATED then ([], s) else fillLoop fx C H (BUFLEN + 2) s [s.doc] 1
 
 def clearScores (sc : Array Nat) (lo hi : Nat) : Array Nat :=
   (List.range (hi - lo)).foldl (fun a i => a.setIfInBounds (lo + i) 0) sc
@@ -165,7 +173,7 @@ def seekLoop (C : DS σ) (H : Nat) (t : Nat) : Nat → State σ → State σ
   | n + 1, s => if s.doc < t then seekLoop C H t n (advance C H s) else s
 
 /-- mirrors: src/query/union/buffered_union.rs::seek -/
-def seek (C : DS σ) (H : Nat) (t : Nat) (s : State σ) : State σ :=
+def seek (fx : Fix) (C : DS σ) (H : Nat) (t : Nat) (s : State σ) : State σ :=
   if s.doc ≥ t then s
   else
     let gap := t - s.ws
@@ -177,7 +185,8 @@ def seek (C : DS σ) (H : Nat) (t : Nat) (s : State σ) : State σ :=
         bucketIdx := nb }
       seekLoop C H t (H + 2) s1
     else
-      let ds1 := s.docsets.map (fun c => if C.doc c < t then C.seek t c else c)
+      let ds1 := if fx.childRevalidate || decide (Gen.UNION_SEEK_REVALIDATES_CHILDREN = 1) then s.docsets.map (fun c => C.seek (max (C.doc c) t) c)
+        else s.docsets.map (fun c => if C.doc c < t then C.seek t c else c)
       let ds2 := ds1.filter (fun c => C.doc c != TERMINATED)
       let s1 := { s with window := [], scores := if s.sum then Array.replicate s.scores.size 0 else s.scores,
                          docsets := ds2 }
@@ -189,8 +198,9 @@ def seek (C : DS σ) (H : Nat) (t : Nat) (s : State σ) : State σ :=
 def isInHorizon (H : Nat) (s : State σ) (t : Nat) : Bool := decide (s.ws ≤ t) && decide (t - s.ws < H)
 
 /-- the guard of the buffered branch of `seek_danger`, regenerated from the source -/
-def dangerBuffered (H : Nat) (s : State σ) (t : Nat) : Bool :=
-  (decide (Gen.UNION_SEEK_DANGER_BELOW_WINDOW_BUFFERED = 1) && decide (t < s.ws)) || isInHorizon H s t
+def dangerBuffered (fx : Fix) (H : Nat) (s : State σ) (t : Nat) : Bool :=
+  ((fx.dangerWindow || decide (Gen.UNION_SEEK_DANGER_BELOW_WINDOW_BUFFERED = 1)) && decide (t < s.ws))
+    || isInHorizon H s t
 
 /-- the `for docset in self.docsets.iter_mut()` of `seek_danger` (breaks at the first hit) -/
 def dangerChildren (C : DS σ) (t : Nat) : List σ → Nat → (Bool × Nat) × List σ
@@ -201,15 +211,15 @@ def dangerChildren (C : DS σ) (t : Nat) : List σ → Nat → (Bool × Nat) × 
     | (.lower b, c') => let r := dangerChildren C t cs (min m b); (r.1, c' :: r.2)
 
 /-- mirrors: src/query/union/buffered_union.rs::seek_danger -/
-def seekDanger (C : DS σ) (H : Nat) (t : Nat) (s : State σ) : SD × State σ :=
+def seekDanger (fx : Fix) (C : DS σ) (H : Nat) (t : Nat) (s : State σ) : SD × State σ :=
   if t ≥ TERMINATED then (.lower TERMINATED, s)
-  else if dangerBuffered H s t then
-    let s' := seek C H t s
+  else if dangerBuffered fx H s t then
+    let s' := seek fx C H t s
     if s'.doc = t then (.found, s') else (.lower s'.doc, s')
   else
     let r := dangerChildren C t s.docsets TERMINATED
     let s1 := { s with docsets := r.2 }
-    if r.1.1 then (.found, seek C H t s1) else (.lower r.1.2, s1)
+    if r.1.1 then (.found, seek fx C H t s1) else (.lower r.1.2, s1)
 
 /-- `while self.refill() { count += …; clear }` -/
 def countLoop (C : DS σ) (H : Nat) : Nat → State σ → Nat → Nat × State σ
@@ -221,21 +231,21 @@ def countLoop (C : DS σ) (H : Nat) : Nat → State σ → Nat → Nat × State 
 
 /-- mirrors: src/query/union/buffered_union.rs::count_including_deleted — note: `self.doc` is
 left where the last refill put it -/
-def count (C : DS σ) (H : Nat) (s : State σ) : Nat × State σ :=
+def count (fx : Fix) (C : DS σ) (H : Nat) (s : State σ) : Nat × State σ :=
   if s.doc = TERMINATED then (0, s)
   else
     let c0 := (s.window.filter (fun δ => decide (s.bucketIdx ≤ δ / 64) && decide (δ / 64 < NB H))).length + 1
     let r := countLoop C H FUEL { s with window := [] } c0
-    (r.1, { r.2 with bucketIdx := NB H })
+    (r.1, { r.2 with bucketIdx := NB H, doc := if fx.unionCountEnd then TERMINATED else r.2.doc })
 
-def ds (C : DS σ) (H : Nat) : DS (State σ) where
+def ds (C : DS σ) (H : Nat) (fx : Fix := {}) : DS (State σ) where
   doc := fun s => s.doc
   advance := advance C H
-  seek := seek C H
-  seekDanger := seekDanger C H
-  fillBuffer := fillBuffer C H
-  fillBitset := defaultFillBitset (fun s => s.doc) (advance C H) (seek C H)
-  count := count C H
+  seek := seek fx C H
+  seekDanger := seekDanger fx C H
+  fillBuffer := fillBuffer fx C H
+  fillBitset := defaultFillBitset (fun s => s.doc) (advance C H) (seek fx C H)
+  count := count fx C H
   score := fun s => (s.score, s)
 
 end TantivyModel.DocSet.BUnion
